@@ -12,19 +12,30 @@
 //   rnrow<n, d>(id);                    ratio<n,d> normalisation           (part (a))
 //   rarow<n1,d1,n2,d2, mops, sops>(id); ratio arithmetic and comparison    (part (a))
 //   mrow(id);                           conjunction / disjunction / negation, integral_constant (fixed row)
+//   irow<F, TL<A...>, TL<B...>>(id);    INVOKE: is_invocable(_r), invoke_result, invocable, regular_invocable, predicate
+//                                       of etl for <F, A...> and of std for <F, B...> (A and B differ in the namespace
+//                                       of reference_wrapper only); modelled in Lean (Tetl/C15/Invoke.lean)
+//   xrow(id);                           plain etl-vs-std items: aligned_storage/aligned_union, conditional, enable_if,
+//                                       void_t, unwrap_reference/unwrap_ref_decay, predicate/relation/..., <cstdint>
 //
 // Every row prints `id <TAB> etl-result <TAB> std-result`; a result is a blank-separated list of
 // `name=value`.  Type-valued results are printed in the prefix encoding of Tetl/C15/Model.lean
 // (`CType.enc`) by the partial specialisations of `Enc` below, which are independent of both libraries.
 // Everything is evaluated at compile time (constexpr tables); the run time only prints.
 #include <etl/concepts.hpp>
+#include <etl/cstddef.hpp>
+#include <etl/cstdint.hpp>
+#include <etl/_functional/reference_wrapper.hpp>
 #include <etl/limits.hpp>
 #include <etl/ratio.hpp>
 #include <etl/type_traits.hpp>
 
 #include <concepts>
+#include <cstddef>
+#include <cstdint>
 #include <cstdio>
 #include <cstring>
+#include <functional>
 #include <limits>
 #include <ratio>
 #include <string>
@@ -610,6 +621,121 @@ static void dbrow(int id)
         std::printf(" common_reference=%s", nary_type_or_none<std::common_reference, T1, T2>().c_str());
         std::printf(" invoke_result=%s", nary_type_or_none<std::invoke_result, T1, T2>().c_str());
     }
+    std::printf("\n");
+}
+
+
+// ---- INVOKE ([func.require]) ------------------------------------------------------------------------
+// the named zoo of Tetl/C15/Invoke.lean (`callableOf`, `abaseOf`): every member function has its own return type, so
+// that invoke_result tells which one was selected
+namespace inv {
+struct S {
+    int x;
+    int const cx = 0;
+    short f0();
+    int fl() &;
+    long fr() &&;
+    char fc() const;
+    unsigned fcl() const&;
+    unsigned long fcr() const&&;
+    float fn() noexcept;
+    bool fcn() const noexcept;
+    double fa(int);
+    void fv();
+    long long fvl() const volatile&;
+    long long frn() && noexcept;
+};
+struct D : S { };
+struct U { };
+using pm_f0  = decltype(&S::f0);
+using pm_fl  = decltype(&S::fl);
+using pm_fr  = decltype(&S::fr);
+using pm_fc  = decltype(&S::fc);
+using pm_fcl = decltype(&S::fcl);
+using pm_fcr = decltype(&S::fcr);
+using pm_fn  = decltype(&S::fn);
+using pm_fcn = decltype(&S::fcn);
+using pm_fa  = decltype(&S::fa);
+using pm_fv  = decltype(&S::fv);
+using pm_fvl = decltype(&S::fvl);
+using pm_frn = decltype(&S::frn);
+using pd_x   = int S::*;
+using pd_cx  = int const S::*;
+struct FoP { short operator()(int); };
+struct FoC { int operator()(int) const; };
+struct FoL { long operator()(int) &; };
+struct FoR { char operator()(int) &&; };
+struct FoCL { unsigned operator()(int) const&; };
+struct FoCR { unsigned long operator()(int) const&&; };
+struct FoOv {
+    float operator()(int) &;
+    double operator()(int) &&;
+    int operator()(int) const&;
+};
+struct FoOv2 {
+    short operator()(int);
+    bool operator()(int) const;
+};
+struct FoN { bool operator()(int) const noexcept; };
+struct FoV { void operator()(int) const; };
+struct FoCVL { long long operator()(int) const volatile&; };
+struct FoBin { bool operator()(int, int) const; };          // relation / equivalence_relation / strict_weak_order
+struct FoBinS { bool operator()(S const&, S const&) const; };
+using fn_t   = int(int);
+using fn_p   = int (*)(int);
+using fn_r   = int (&)(int);
+using fn_pn  = int (*)(int) noexcept;
+using nc_int = int;
+using nc_U   = U;
+struct smC { S& operator*() const; };
+struct smK { S const& operator*() const; };
+struct smN { S& operator*(); };
+struct smL { S& operator*() &; };
+struct smR { S& operator*() &&; };
+template <typename... Ts> struct TL { };
+template <typename T> using Q0 = T;
+template <typename T> using Q1 = T&;
+template <typename T> using Q2 = T&&;
+template <typename T> using Q3 = T const;
+template <typename T> using Q4 = T const&;
+template <typename T> using Q5 = T const&&;
+} // namespace inv
+
+#define C15_INV_SIDE(ns)                                                                                               \
+    template <typename F, typename... A>                                                                               \
+    static void put_inv_##ns(inv::TL<A...>)                                                                            \
+    {                                                                                                                  \
+        std::printf("is_invocable=%d is_invocable::value=%d", ns::is_invocable_v<F, A...> ? 1 : 0,                    \
+            ns::is_invocable<F, A...>::value ? 1 : 0);                                                                 \
+        std::printf(" is_invocable_r<void>=%d is_invocable_r<void>::value=%d", ns::is_invocable_r_v<void, F, A...> ? 1 : 0, \
+            ns::is_invocable_r<void, F, A...>::value ? 1 : 0);                                                         \
+        std::printf(" is_invocable_r<int>=%d is_invocable_r<int>::value=%d", ns::is_invocable_r_v<int, F, A...> ? 1 : 0, \
+            ns::is_invocable_r<int, F, A...>::value ? 1 : 0);                                                          \
+        std::printf(" is_invocable_r<int&>=%d is_invocable_r<int&>::value=%d", ns::is_invocable_r_v<int&, F, A...> ? 1 : 0, \
+            ns::is_invocable_r<int&, F, A...>::value ? 1 : 0);                                                         \
+        std::printf(" is_invocable_r<int&&>=%d is_invocable_r<int&&>::value=%d", ns::is_invocable_r_v<int&&, F, A...> ? 1 : 0, \
+            ns::is_invocable_r<int&&, F, A...>::value ? 1 : 0);                                                        \
+        std::printf(" is_invocable_r<int_const&>=%d is_invocable_r<int_const&>::value=%d",                             \
+            ns::is_invocable_r_v<int const&, F, A...> ? 1 : 0, ns::is_invocable_r<int const&, F, A...>::value ? 1 : 0); \
+        if constexpr (requires { typename ns::invoke_result_t<F, A...>; }) {                                           \
+            std::printf(" invoke_result=%s", enc<ns::invoke_result_t<F, A...>>().c_str());                             \
+        } else {                                                                                                       \
+            std::printf(" invoke_result=none");                                                                        \
+        }                                                                                                              \
+        std::printf(" invoke_result::type=%s", nary_type_or_none<ns::invoke_result, F, A...>().c_str());               \
+        std::printf(" invocable=%d regular_invocable=%d predicate=%d", ns::invocable<F, A...> ? 1 : 0,                 \
+            ns::regular_invocable<F, A...> ? 1 : 0, ns::predicate<F, A...> ? 1 : 0);                                   \
+    }
+C15_INV_SIDE(etl)
+C15_INV_SIDE(std)
+
+template <typename F, typename EtlArgs, typename StdArgs>
+static void irow(int id)
+{
+    std::printf("%d\t", id);
+    put_inv_etl<F>(EtlArgs{});
+    std::printf("\t");
+    put_inv_std<F>(StdArgs{});
     std::printf("\n");
 }
 
